@@ -22,7 +22,8 @@
    are exercised by engines wr/rd as configurations whose output must be byte-identical. *)
 From Coq Require Import NArith ZArith List Lia.
 From Mtbl Require Import gen.Consts model.Bytes model.Order model.Block model.Writer spec.Parse model.Reader
-  proofs.WriterProofs proofs.MetaProofs proofs.BlockProofs proofs.LookupProofs proofs.ReaderProofs proofs.BlockRT proofs.TableRT.
+  proofs.WriterProofs proofs.MetaProofs proofs.BlockProofs proofs.LookupProofs proofs.ReaderProofs proofs.BlockRT proofs.TableRT
+  model.Tools proofs.ToolsProofs.
 (* source ties: the statements of the C functions the model follows (gen/Ties.v is regenerated from /repo on every run) *)
 From Mtbl Require props.Ties_C01.
 Local Open Scope N_scope.
@@ -76,10 +77,38 @@ Proof.
   exact (written_table_ok compress_default compress_level decompress decompress_compress_default decompress_compress_level
            o prefix ops w' rs Hi Hf Hs Hm Hx Hl).
 Qed.
+
+(* mtbl_dump -x on the finished file prints exactly the accepted entries that pass its filters, in order, each as
+   %08x-length ':' hex bytes joined by '-', key, a blank, value (model/Tools.v follows src/mtbl_dump.c: dump());
+   without options, every accepted entry *)
+Theorem T01_dump : forall o prefix ops w' rs (d : dump_opts),
+  1 <= wo_interval o ->
+  writer_session compress_default compress_level o (len prefix) ops = Ok (w', rs) ->
+  fits o prefix ops w' ->
+  forall fuel, (length (kept ops rs) < fuel)%nat ->
+  dump_hex decompress d fuel (prefix ++ writer_bytes w') = Some (map dump_line_hex (filter (dump_keep d) (kept ops rs))) /\
+  dump_hex decompress (mkdo None None 0 0) fuel (prefix ++ writer_bytes w') = Some (map dump_line_hex (kept ops rs)).
+Proof.
+  intros o prefix ops w' rs d Hi Hs Hf fuel Hfuel.
+  pose proof (T01_any_input o prefix ops w' rs Hi Hs Hf fuel Hfuel) as H.
+  split; [apply dump_hex_of_read_all; exact H|].
+  rewrite (dump_hex_of_read_all decompress _ fuel _ _ H), filter_keep_all. reflexivity.
+Qed.
 End C01.
 Print Assumptions T01_any_input.
 Print Assumptions T01_roundtrip.
 Print Assumptions T01_written_table_ok.
+Print Assumptions T01_dump.
+
+(* the filter of mtbl_dump: -k / -v keep entries whose key / value BEGINS WITH the given bytes, -K / -V those whose
+   key / value has at least the given length *)
+Theorem T01_dump_filter : forall o e,
+  dump_keep o e = true <->
+  (forall p, do_key_prefix o = Some p -> is_prefix p (fst e) = true) /\
+  (forall p, do_val_prefix o = Some p -> is_prefix p (snd e) = true) /\
+  do_key_min o <= len (fst e) /\ do_val_min o <= len (snd e).
+Proof. exact dump_keep_spec. Qed.
+Print Assumptions T01_dump_filter.
 
 (* non-vacuity: a concrete multi-block instance meets every hypothesis (model writer,
    compression NONE, 5 foreign bytes in front), and the conclusion computes *)
